@@ -18,7 +18,7 @@ import (
 func TestMain(m *testing.M) { pbt.RunMain(m) }
 
 func gen(t *rapid.T) perco.GCase {
-	return perco.Generate(t, perco.Profile{MaxSteps: 28, WRead: 9, WMaint: 4, WDup: 1, WCheck: 1, Excl: perco.OpenExclusions()})
+	return perco.Generate(t, perco.Profile{MaxSteps: 28, WRead: 9, WMaint: 4, WDup: 1, WCheck: 1, WPartial: 1, Excl: perco.OpenExclusions()})
 }
 
 func run(c perco.GCase, r *pbt.Rec) error {
